@@ -245,7 +245,7 @@ Lemma fifo_step : forall es s os e, Inv s -> P_fifo es s os ->
 Proof.
   intros es s os e I [W2 [H2 [HW [HH HO]]]]. unfold P_fifo. rewrite https_app.
   step_split cap T30 s e; simp_proj;
-    try (exists W2, H2; repeat split; auto; intros; try discriminate; apply HO; assumption).
+    try (exists W2, H2; (split; [assumption|split; [assumption|]]); first [exact HO | intros; discriminate | intros; congruence]).
   - (* issue, written *) destruct (HO eq_refl) as [-> ->].
     exists (map fst (inflight s) ++ [next s]), []. rewrite HW, HH, map_app, app_assoc. cbn. auto.
   - (* data, crash *)
@@ -273,4 +273,336 @@ Proof.
   destruct H as [W2 [H2 [A [B _]]]]. exists W2, H2. auto.
 Qed.
 
+
+(* ---------------------------------------------------------------- every issued request is accounted for *)
+Definition P_acc (es : list event) (s : st) (os : list output) : Prop :=
+  Permutation (seq 0 (next s)) (dones os ++ map fst (inflight s) ++ waiters s).
+
+Lemma perm_ins : forall (X a b : list rid) r, Permutation X (a ++ b) -> Permutation (X ++ [r]) (a ++ r :: b).
+Proof.
+  intros. eapply Permutation_trans; [apply Permutation_sym, Permutation_cons_append|].
+  apply Permutation_cons_app. assumption.
+Qed.
+
+Lemma acc_step : forall es s os e, Inv s -> P_acc es s os ->
+    P_acc (es ++ [e]) (fst (step s e)) (os ++ snd (step s e)).
+Proof.
+  intros es s os e I H. unfold P_acc in *.
+  step_split cap T30 s e; simp_proj; rewrite ?map_id; try exact H.
+  - (* issue, written *)
+    rewrite seq_S, map_app. cbn [map fst plus].
+    replace (dones os ++ (map fst (inflight s) ++ [next s]) ++ waiters s)
+      with ((dones os ++ map fst (inflight s)) ++ next s :: waiters s) by (rewrite <- !app_assoc; reflexivity).
+    apply perm_ins. rewrite <- app_assoc. exact H.
+  - (* issue, queued *)
+    rewrite seq_S. cbn [plus].
+    replace (dones os ++ map fst (inflight s) ++ waiters s ++ [next s])
+      with ((dones os ++ map fst (inflight s) ++ waiters s) ++ next s :: []) by (rewrite <- !app_assoc; reflexivity).
+    apply perm_ins. rewrite app_nil_r. exact H.
+  - (* issue, closed *)
+    rewrite seq_S. cbn [plus]. rewrite <- app_assoc. cbn [app]. apply perm_ins. exact H.
+  - (* data, crash *)
+    destruct (dispatch_spec _ _ _ _ _ _ Ed) as [pre [hs' [ev' [G1 [G2 _]]]]].
+    rewrite G1, map_app, <- G2 in H. rewrite <- !app_assoc in *. cbn [map]. rewrite ?app_nil_r. exact H.
+  - (* data, ok *)
+    destruct (dispatch_spec _ _ _ _ _ _ Ed) as [pre [hs' [ev' [G1 [G2 _]]]]].
+    rewrite G1, map_app, <- G2 in H. rewrite map_app, map_fst_pairs. rewrite <- !app_assoc in *.
+    rewrite firstn_skipn. exact H.
+  - (* cancel in flight *)
+    apply in_fl_true in E1. destruct (remove_fl_split _ _ E1) as [a [wt [b [G1 G2]]]].
+    rewrite G2. rewrite G1 in H. cbn [map]. rewrite ?app_nil_r.
+    eapply Permutation_trans; [exact H|]. apply Permutation_app_head.
+    rewrite !map_app. cbn [map fst app]. rewrite <- !app_assoc. cbn [app].
+    apply Permutation_sym, Permutation_middle.
+  - (* cancel waiter *)
+    apply in_ws_true in E2. destruct (remove_rid_split _ _ E2) as [a [b [G1 G2]]].
+    rewrite G2. rewrite G1 in H.
+    eapply Permutation_trans; [exact H|]. rewrite <- app_assoc. apply Permutation_app_head. cbn [app].
+    rewrite !app_assoc. apply Permutation_sym, Permutation_middle.
+  all: try (cbn [map fst app] in *; rewrite <- ?app_assoc; cbn [map app]; rewrite ?app_nil_r; exact H).
+Qed.
+
+Theorem accounted_thm : forall es,
+    Permutation (seq 0 (next (final es))) (dones (trace es) ++ map fst (inflight (final es)) ++ waiters (final es)).
+Proof.
+  intros es. apply (reach_ind P_acc); [cbn; constructor|apply acc_step].
+Qed.
+
+(* ---------------------------------------------------------------- the fate of a written request *)
+Ltac in_inv :=
+  repeat match goal with
+  | H : In _ (flush_out _ _ _) |- _ => unfold flush_out in H
+  | H : In _ (_ ++ _) |- _ => apply in_app_iff in H; destruct H as [H|H]
+  | H : In _ (map _ _) |- _ => apply in_map_iff in H; destruct H as [? [? H]]
+  | H : In _ (_ :: _) |- _ => destruct H as [H|H]
+  | H : In _ [] |- _ => destruct H
+  end; try discriminate.
+
+Lemma in_done_resp : forall t (res : list (rid * N)) r n,
+    In (r, n) res -> In (ODone r (Resp n) t) (map (fun p => ODone (fst p) (Resp (snd p)) t) res).
+Proof. intros. apply in_map_iff. exists (r, n). split; [reflexivity|assumption]. Qed.
+
+Lemma in_flush_fl : forall t fl ws r w, In (r, w) fl -> In (ODone r Disconnected t) (flush_out t fl ws).
+Proof. intros. unfold flush_out. apply in_app_iff. left. apply in_map_iff. exists (r, w). split; [reflexivity|assumption]. Qed.
+
+Lemma in_pre_resolved : forall (pre : list (rid * N)) (res : list (rid * N)) r t0,
+    map fst res = map fst pre -> In (r, t0) pre -> exists n, In (r, n) res.
+Proof.
+  intros pre res r t0 H Hin. apply (in_map fst) in Hin. rewrite <- H in Hin. apply in_map_iff in Hin.
+  destruct Hin as [[r' n] [E Hin]]. cbn in E. subst. exists n. assumption.
+Qed.
+
+Lemma step_fate : forall s e q t0, Inv s -> In (q, t0) (inflight s) ->
+    In (q, t0) (inflight (fst (step s e))) \/
+    exists oc t1, In (ODone q oc t1) (snd (step s e)) /\ (t0 <= t1 <= t0 + T30)%N.
+Proof.
+  intros s e q t0 I Hin.
+  pose proof (inv_time _ _ _ I) as Ht. rewrite Forall_forall in Ht. pose proof (Ht _ Hin) as Hr. cbn [snd] in Hr.
+  step_split cap T30 s e; cbn [inflight closed_st]; try (left; exact Hin).
+  - left. apply in_app_iff. left. exact Hin.
+  - (* data, crash *)
+    destruct (dispatch_spec _ _ _ _ _ _ Ed) as [pre [hs' [ev' [G1 [G2 _]]]]].
+    rewrite G1 in Hin. apply in_app_iff in Hin. right. destruct Hin as [Hin|Hin].
+    + destruct (in_pre_resolved _ _ _ _ G2 Hin) as [n Hn]. exists (Resp n), (clock s). split; [|lia].
+      apply in_app_iff. left. apply in_app_iff. right. apply in_done_resp. exact Hn.
+    + exists Disconnected, (clock s). split; [|lia].
+      apply in_app_iff. right. apply in_app_iff. right. eapply in_flush_fl. exact Hin.
+  - (* data, ok *)
+    destruct (dispatch_spec _ _ _ _ _ _ Ed) as [pre [hs' [ev' [G1 [G2 _]]]]].
+    rewrite G1 in Hin. apply in_app_iff in Hin. destruct Hin as [Hin|Hin].
+    + right. destruct (in_pre_resolved _ _ _ _ G2 Hin) as [n Hn]. exists (Resp n), (clock s). split; [|lia].
+      apply in_app_iff. left. apply in_app_iff. right. apply in_done_resp. exact Hn.
+    + left. apply in_app_iff. left. exact Hin.
+  - (* cancel in flight *)
+    right. apply in_fl_true in E1. destruct (remove_fl_split _ _ E1) as [a [wt [b [G1 G2]]]].
+    rewrite G2. rewrite G1 in Hin. apply in_app_iff in Hin. destruct Hin as [Hin|[Hin|Hin]].
+    + exists Disconnected, (clock s). split; [|lia]. right. eapply in_flush_fl. apply in_app_iff. left. exact Hin.
+    + inversion Hin; subst. exists Cancelled, (clock s). split; [left; reflexivity|lia].
+    + exists Disconnected, (clock s). split; [|lia]. right. eapply in_flush_fl. apply in_app_iff. right. exact Hin.
+  - (* timeout *)
+    right.
+    pose proof (inv_sorted _ _ _ I) as Hs. rewrite Ef in Hs. pose proof (StronglySorted_inv Hs) as [_ Hhd].
+    rewrite Forall_forall in Hhd.
+    assert (Hh : (wt <= clock s /\ clock s < wt + T30)%N) by (apply (Ht (r0, wt)); left; reflexivity).
+    destruct Hin as [Hin|Hin].
+    + inversion Hin; subst. exists TimedOut, (t0 + T30)%N. split; [left; reflexivity|lia].
+    + exists (if (t0 =? wt)%N then TimedOut else Disconnected), (wt + T30)%N. split.
+      * right. apply in_app_iff. left. apply in_map_iff. exists (q, t0). split; [reflexivity|assumption].
+      * specialize (Hhd _ Hin). unfold le_wt in Hhd. cbn in Hhd. lia.
+  - right. exists Disconnected, (clock s). split; [|lia]. eapply in_flush_fl. exact Hin.
+  - right. exists Disconnected, (clock s). split; [|lia]. eapply in_flush_fl. exact Hin.
+Qed.
+
+Lemma step_wrote : forall s e q t0, In (OWrote q t0) (snd (step s e)) -> In (q, t0) (inflight (fst (step s e))).
+Proof.
+  intros s e q t0 H. revert H.
+  step_split cap T30 s e; cbn [inflight closed_st]; intros H; in_inv.
+  - inversion H; subst. apply in_app_iff. right. left. reflexivity.
+  - inversion H0; subst. apply in_app_iff. right. apply in_map_iff. eexists. split; [reflexivity|assumption].
+Qed.
+
+Lemma step_origin : forall s e q w0, In (q, w0) (inflight (fst (step s e))) ->
+    In (q, w0) (inflight s) \/ In (OWrote q w0) (snd (step s e)).
+Proof.
+  intros s e q w0 H. revert H.
+  step_split cap T30 s e; cbn [inflight closed_st]; intros H; try (left; exact H); try (destruct H; fail).
+  - apply in_app_iff in H. destruct H as [H|[H|[]]]; [left; assumption|]. inversion H; subst. right. left. reflexivity.
+  - destruct (dispatch_spec _ _ _ _ _ _ Ed) as [pre [hs' [ev' [G1 _]]]].
+    apply in_app_iff in H. destruct H as [H|H].
+    + left. rewrite G1. apply in_app_iff. right. assumption.
+    + right. apply in_map_iff in H. destruct H as [w [E Hw]]. inversion E; subst.
+      apply in_app_iff. right. apply in_map_iff. exists q. split; [reflexivity|assumption].
+Qed.
+
+Lemma step_timedout : forall s e q t1, In (ODone q TimedOut t1) (snd (step s e)) ->
+    exists t0, In (q, t0) (inflight s) /\ t1 = (t0 + T30)%N.
+Proof.
+  intros s e q t1 H. revert H.
+  step_split cap T30 s e; intros H; in_inv.
+  - inversion H; subst. exists wt. split; [left; reflexivity|reflexivity].
+  - destruct x as [r' w']. cbn [fst snd] in H0. destruct (w' =? wt)%N eqn:E; [|discriminate].
+    apply N.eqb_eq in E. inversion H0; subst. exists wt. split; [right; assumption|reflexivity].
+Qed.
+
+Definition P_w (es : list event) (s : st) (os : list output) : Prop :=
+  (forall r t0, In (OWrote r t0) os ->
+     (exists oc t1, In (ODone r oc t1) os /\ (t0 <= t1 <= t0 + T30)%N) \/ In (r, t0) (inflight s)) /\
+  (forall r wt, In (r, wt) (inflight s) -> In (OWrote r wt) os) /\
+  (forall r t1, In (ODone r TimedOut t1) os -> exists t0, In (OWrote r t0) os /\ t1 = (t0 + T30)%N).
+
+Lemma w_step : forall es s os e, Inv s -> P_w es s os ->
+    P_w (es ++ [e]) (fst (step s e)) (os ++ snd (step s e)).
+Proof.
+  intros es s os e I [H1 [H2 H3]]. repeat split.
+  - intros r t0 Hin. apply in_app_iff in Hin. destruct Hin as [Hin|Hin].
+    + destruct (H1 _ _ Hin) as [[oc [t1 [Hd Ht]]]|Hf].
+      * left. exists oc, t1. split; [apply in_app_iff; left; assumption|assumption].
+      * destruct (step_fate s e r t0 I Hf) as [Hf'|[oc [t1 [Hd Ht]]]]; [right; assumption|].
+        left. exists oc, t1. split; [apply in_app_iff; right; assumption|assumption].
+    + right. apply step_wrote. assumption.
+  - intros r wt Hin. apply in_app_iff. destruct (step_origin s e r wt Hin) as [Ho|Ho]; [left; auto|right; assumption].
+  - intros r t1 Hin. apply in_app_iff in Hin. destruct Hin as [Hin|Hin].
+    + destruct (H3 _ _ Hin) as [t0 [Ha Hb]]. exists t0. split; [apply in_app_iff; left; assumption|assumption].
+    + destruct (step_timedout s e r t1 Hin) as [t0 [Ha Hb]]. exists t0. split; [apply in_app_iff; left; auto|assumption].
+Qed.
+
+Lemma w_reach : forall es, P_w es (final es) (trace es).
+Proof.
+  intros es. apply (reach_ind P_w); [|apply w_step].
+  repeat split; cbn; intros; contradiction.
+Qed.
+
+Theorem timeout_30s_thm : forall es r t0,
+    In (OWrote r t0) (trace es) -> (t0 + T30 <= clock (final es))%N ->
+    exists oc t1, In (ODone r oc t1) (trace es) /\ (t0 <= t1 <= t0 + T30)%N.
+Proof.
+  intros es r t0 Hin Hc. destruct (w_reach es) as [H1 _]. destruct (H1 _ _ Hin) as [Hd|Hf]; [exact Hd|].
+  exfalso. pose proof (inv_time _ _ _ (final_Inv cap T30 cap_pos T30_pos es)) as Ht. rewrite Forall_forall in Ht.
+  specialize (Ht _ Hf). cbn [snd] in Ht. lia.
+Qed.
+
+Theorem timeout_exact_thm : forall es r t1,
+    In (ODone r TimedOut t1) (trace es) -> exists t0, In (OWrote r t0) (trace es) /\ t1 = (t0 + T30)%N.
+Proof. intros es r t1 H. destruct (w_reach es) as [_ [_ H3]]. exact (H3 _ _ H). Qed.
+
+(* 30 s of silence complete everything *)
+Theorem silence_thm : forall s dt, Inv s -> (T30 <= dt)%N ->
+    inflight (fst (step s (Advance dt))) = [] /\ waiters (fst (step s (Advance dt))) = [].
+Proof.
+  intros s dt I Hd. cbn [step]. destruct (inflight s) as [|[r wt] rest] eqn:Ef.
+  - cbn. split; [reflexivity|]. apply (waiters_nil_of_inflight_nil cap T30 cap_pos T30_pos s I Ef).
+  - assert (Ho : opened s = true) by (apply (opened_of_pending cap T30); [assumption|left; rewrite Ef; discriminate]).
+    pose proof (inv_time _ _ _ I) as Ht. rewrite Ef in Ht. inversion Ht; subst. cbn [snd] in H1.
+    rewrite Ho. cbn [andb]. assert (E : (wt + T30 <=? clock s + dt)%N = true) by (apply N.leb_le; lia).
+    rewrite E. cbn. auto.
+Qed.
+
+(* ---------------------------------------------------------------- events *)
+Definition P_ev (es : list event) (s : st) (os : list output) : Prop :=
+  (opened s = true -> events_of os = evs es) /\ subseq (events_of os) (evs es).
+
+Lemma ev_step : forall es s os e, Inv s -> P_ev es s os ->
+    P_ev (es ++ [e]) (fst (step s e)) (os ++ snd (step s e)).
+Proof.
+  intros es s os e I [H1 H2]. unfold P_ev. rewrite evs_app, events_of_app.
+  assert (Hsub : subseq (events_of (snd (step s e))) (evs [e]) /\
+                 (opened (fst (step s e)) = true -> events_of (snd (step s e)) = evs [e])).
+  { step_split cap T30 s e; simp_proj; rewrite ?events_map_done; cbn [app];
+      try (split; [apply subseq_nil_l|intros; try discriminate; try congruence; reflexivity]).
+    - destruct (dispatch_spec _ _ _ _ _ _ Ed) as [pre [hs' [ev' [_ [_ [_ [G4 _]]]]]]].
+      rewrite G4. split; [apply subseq_prefix|intros; discriminate].
+    - destruct (dispatch_spec _ _ _ _ _ _ Ed) as [pre [hs' [ev' [_ [_ [_ [G4 G5]]]]]]].
+      destruct (G5 eq_refl) as [_ ->]. rewrite app_nil_r in G4. rewrite G4. split; [apply subseq_refl|reflexivity].
+  }
+  destruct Hsub as [Ha Hb]. split.
+  - intros Ho. rewrite (H1 (step_opened_mono _ _ Ho)), (Hb Ho). reflexivity.
+  - apply subseq_app; assumption.
+Qed.
+
+Theorem events_thm : forall es,
+    (opened (final es) = true -> events_of (trace es) = evs es) /\ subseq (events_of (trace es)) (evs es).
+Proof.
+  intros es. apply (reach_ind P_ev); [|apply ev_step]. split; [reflexivity|constructor].
+Qed.
+
+(* ---------------------------------------------------------------- events do not interfere with requests *)
+Lemma strip_step : forall s e,
+    fst (step s (strip_event e)) = fst (step s e) /\
+    non_events (snd (step s (strip_event e))) = non_events (snd (step s e)).
+Proof.
+  intros s e. destruct e; try (split; reflexivity). cbn [strip_event step].
+  destruct (opened s); cbn [negb]; [|split; reflexivity].
+  destruct (dispatch ms (inflight s)) as [[[res rest] evl] c] eqn:Ed.
+  rewrite (dispatch_strip _ _ _ _ _ _ Ed).
+  destruct c; cbn [fst snd map app]; (split; [reflexivity|]); rewrite !non_events_app, non_events_map_event; reflexivity.
+Qed.
+
+Theorem strip_thm : forall es s,
+    fst (run s (map strip_event es)) = fst (run s es) /\
+    non_events (snd (run s (map strip_event es))) = non_events (snd (run s es)).
+Proof.
+  induction es as [|e es IH]; intros s; [split; reflexivity|]. cbn [map Disp.run].
+  destruct (strip_step s e) as [A B].
+  destruct (step s (strip_event e)) as [s1 o1]. destruct (step s e) as [s1' o1']. cbn [fst snd] in A, B. subst s1'.
+  destruct (IH s1) as [C D].
+  destruct (run s1 (map strip_event es)) as [s2 o2]. destruct (run s1 es) as [s2' o2']. cbn [fst snd] in *.
+  split; [assumption|]. rewrite !non_events_app. congruence.
+Qed.
+
 End Trace.
+
+(* ---------------------------------------------------------------- global corollaries *)
+Section Trace2.
+Variable cap : nat.
+Variable T30 : N.
+Hypothesis cap_pos : 0 < cap.
+Hypothesis T30_pos : (0 < T30)%N.
+
+Notation step := (step cap T30).
+Notation run := (run cap T30).
+Notation final := (final cap T30).
+Notation trace := (trace cap T30).
+
+Lemma trace_app : forall es1 es2, trace (es1 ++ es2) = trace es1 ++ snd (run (final es1) es2).
+Proof. intros. unfold trace, final. apply run_snd_app. Qed.
+
+Lemma final_app : forall es1 es2, final (es1 ++ es2) = fst (run (final es1) es2).
+Proof. intros. unfold final. apply run_fst_app. Qed.
+
+(* once abandoned, always abandoned: nothing is written, nothing is resolved, no event is delivered *)
+Theorem abandoned_forever_thm : forall es1 es2, opened (final es1) = false ->
+    opened (final (es1 ++ es2)) = false /\
+    writes (trace (es1 ++ es2)) = writes (trace es1) /\
+    resps (trace (es1 ++ es2)) = resps (trace es1) /\
+    events_of (trace (es1 ++ es2)) = events_of (trace es1).
+Proof.
+  intros es1 es2 Ho. rewrite final_app, trace_app.
+  destruct (run_closed cap T30 es2 (final es1) Ho) as [H1 [H2 [H3 H4]]].
+  autorewrite with proj. rewrite H2, H3, H4, !app_nil_r. auto.
+Qed.
+
+(* ... and a request issued later fails with the disconnection error in the same step, unwritten *)
+Theorem late_issue_thm : forall es1 es2, opened (final es1) = false ->
+    snd (step (final (es1 ++ es2)) Issue)
+    = [ODone (next (final (es1 ++ es2))) Disconnected (clock (final (es1 ++ es2)))].
+Proof.
+  intros es1 es2 Ho. destruct (abandoned_forever_thm es1 es2 Ho) as [H _].
+  apply (closed_issue cap T30 _ H).
+Qed.
+
+(* closing empties the pending set in the same step *)
+Theorem closed_flushed_thm : forall es, opened (final es) = false ->
+    inflight (final es) = [] /\ waiters (final es) = [].
+Proof. intros es Ho. exact (inv_closed _ _ _ (final_Inv cap T30 cap_pos T30_pos es) Ho). Qed.
+
+Theorem closed_all_done_thm : forall es, opened (final es) = false ->
+    Permutation (seq 0 (next (final es))) (dones (trace es)).
+Proof.
+  intros es Ho. pose proof (accounted_thm cap T30 cap_pos T30_pos es) as H.
+  destruct (closed_flushed_thm es Ho) as [H1 H2]. rewrite H1, H2 in H. cbn in H. rewrite app_nil_r in H. exact H.
+Qed.
+
+(* a caller queued on the semaphore always has a full set of requests in flight in front of it,
+   each with a running 30 s timer *)
+Theorem queued_thm : forall es, waiters (final es) <> [] ->
+    opened (final es) = true /\ length (inflight (final es)) = cap.
+Proof.
+  intros es H. pose proof (final_Inv cap T30 cap_pos T30_pos es) as I. split.
+  - apply (opened_of_pending cap T30 _ I). right. exact H.
+  - apply (inv_wait _ _ _ I H).
+Qed.
+
+Theorem inflight_deadline_thm : forall es r wt, In (r, wt) (inflight (final es)) ->
+    (wt <= clock (final es) < wt + T30)%N.
+Proof.
+  intros es r wt H. pose proof (inv_time _ _ _ (final_Inv cap T30 cap_pos T30_pos es)) as Ht.
+  rewrite Forall_forall in Ht. exact (Ht _ H).
+Qed.
+
+(* events never change a request's fate *)
+Theorem events_dont_interfere_thm : forall es,
+    final (map strip_event es) = final es /\
+    non_events (trace (map strip_event es)) = non_events (trace es).
+Proof. intros es. apply strip_thm. Qed.
+
+End Trace2.
